@@ -143,7 +143,17 @@ def make_traj(m, species, coords, time_step=2e-15, temperature=600.0, rot=None, 
     from gemdat.trajectory import Trajectory
     from pymatgen.core import Element
     species = [Element(s) if isinstance(s, str) else s for s in species]
-    return Trajectory(species=list(species), coords=np.array(coords, dtype=float),
+    coords = np.array(coords, dtype=float)
+    # memory layout is not part of the meaning of an array: hand the same values over in C order, Fortran order or as a
+    # non-contiguous view, chosen deterministically from the content (so that a replay sees the same layout)
+    if coords.ndim == 3 and coords.size:
+        import zlib
+        pick = zlib.crc32(np.ascontiguousarray(coords).tobytes()) % 4
+        if pick == 1:
+            coords = np.asfortranarray(coords)
+        elif pick == 2:
+            coords = np.ascontiguousarray(coords.transpose(2, 0, 1)).transpose(1, 2, 0)
+    return Trajectory(species=list(species), coords=coords,
                       lattice=make_lattice(m, rot), time_step=time_step,
                       metadata={'temperature': temperature}, **kw)
 
